@@ -18,5 +18,7 @@ INVARIANTS
     NoOrphanAssociation
     TemplateAllOrNone
     DerivedFromScript
+    FailedRequestLeavesNoTrace
+    TemplateTaskList
     CrashAtomicOrKnown
 CHECK_DEADLOCK FALSE
